@@ -1,5 +1,6 @@
 CONSTANTS
   Bugs = {"drop_last", "no_square", "accept_negative", "swap_forgot", "wrong_T", "stride", "twiddle",
+          "forward_swapped", "coeffs_exchanged", "lcm_divides_twice",
           "flag_overwritten", "base_ignored", "any_for_all", "generator_consumed"}
   MaxN = 6
   R = 3
@@ -7,6 +8,7 @@ CONSTANTS
   MaxTerms = 3
 INIT Init
 NEXT Next
-INVARIANTS Ctl_drop_last Ctl_no_square Ctl_accept_negative Ctl_swap_forgot Ctl_wrong_T Ctl_stride Ctl_twiddle
+INVARIANTS EntryBugKeepsGcd Ctl_forward_swapped Ctl_coeffs_exchanged Ctl_lcm_divides_twice
+           Ctl_drop_last Ctl_no_square Ctl_accept_negative Ctl_swap_forgot Ctl_wrong_T Ctl_stride Ctl_twiddle
            Ctl_flag_overwritten Ctl_flag_overwritten_result Ctl_base_ignored Ctl_any_for_all Ctl_generator_consumed
 CHECK_DEADLOCK FALSE
